@@ -44,7 +44,7 @@ unsigned in_W, in_A, in_S, in_g, in_slot; uint64_t in_seq0;
 uint64_t ver[XV_S];                    /* version of a slot's contents: bumped by the environment whenever it modifies the slot */
 uint64_t shadow_seq;                   /* value of _seq after the last write to it */
 /* last observation of _seq by the thread under test, with a snapshot of the slot that sequence value designates */
-uint64_t obs_v, obs_ver; unsigned obs_slot; unsigned char obs_snap;
+uint64_t obs_v, obs_ver; unsigned obs_slot; unsigned char obs_snap; _Bool obs_valid;
 /* copy of the observation current when read_data was entered the last time; slot handed to read_data/store_data */
 uint64_t rd_obs_v, rd_obs_ver; unsigned rd_obs_slot; unsigned char rd_obs_snap; unsigned rd_calls, st_calls;
 unsigned cur_slot, rd_slot, st_slot; uint64_t st_seq;
@@ -64,14 +64,14 @@ static void havoc_shared(void);
  * reader: the local seq is the last observed value of _seq; _seq has not decreased since; and as long as _seq has not passed
  * 2*(obs_v>>1) + 2*slots - 2 the slot designated by the observation still holds the byte (and version) it held when observed. */
 #define SL_STABLE_LIMIT(v) ((((v) >> 1) << 1) + 2 * (uint64_t)XV_S - 2)
-#define SL_INV_READER (seq == obs_v && obs_v >= in_seq0 && g_sl->_seq >= obs_v && g_sl->_seq <= MAXSEQ && shadow_seq == g_sl->_seq \
+#define SL_INV_READER (obs_valid && seq == obs_v && obs_v >= in_seq0 && g_sl->_seq >= obs_v && g_sl->_seq <= MAXSEQ && shadow_seq == g_sl->_seq \
    && obs_slot == (unsigned)((obs_v >> 1) % slots) \
    && (g_sl->_seq <= SL_STABLE_LIMIT(obs_v) ? (g_sl->_data[obs_slot].b[in_g] == obs_snap && ver[obs_slot] == obs_ver) : 1) \
    && mon_clean())
 #define XV_INV_LOAD SL_INV_READER
 #define XV_INV_WAIT SL_INV_READER
-#define XV_HAVOC_LOAD seq = nondet_uptr(); result = nondet_T(); havoc_shared() /* self: _seq, _data and all ghost state; idx, seq2 are body-local */
-#define XV_HAVOC_WAIT seq = nondet_uptr(); result = nondet_T(); havoc_shared() /* self: _seq, _data */
+#define XV_HAVOC_LOAD result = nondet_T(); havoc_shared(); seq = obs_v /* self: _seq, _data and all ghost state; idx, seq2 are body-local */
+#define XV_HAVOC_WAIT result = nondet_T(); havoc_shared(); seq = obs_v /* self: _seq, _data */
 /* acquire_lock: nothing written by this thread so far */
 #define SL_INV_ACQ (g_sl->_seq <= MAXSEQ && shadow_seq == g_sl->_seq && !lock_mine && !guar_bad && !cas_weak \
    && n_cas_ok == 0 && n_seq_stores == 0 && n_data_stores == 0)
@@ -106,7 +106,7 @@ static void mon_load(const void* addr, uint64_t v, int o) {
     n_seq_loads++;
     if (!XV_IS_ACQUIRE(o)) seq_load_weak = 1;
     if (pending_data_loads) fence_missing = 1;          /* data words were loaded and no acquire fence separates them from this load of _seq */
-    obs_v = v; obs_slot = (unsigned)((v >> 1) % slots); obs_snap = g_sl->_data[obs_slot].b[in_g]; obs_ver = ver[obs_slot];
+    obs_valid = 1; obs_v = v; obs_slot = (unsigned)((v >> 1) % slots); obs_snap = g_sl->_data[obs_slot].b[in_g]; obs_ver = ver[obs_slot];
   } else { n_data_loads++; pending_data_loads = 1; mon_data(addr, 0); }
 }
 static void mon_store(const void* addr, uint64_t v, int o) {
@@ -140,11 +140,14 @@ static void mon_fence(int o) {
 static void SL_READ_DATA(const struct seqlock* self, T* dest, const storage_t* src) {
   cur_slot = (unsigned)(src - self->_data); rd_slot = cur_slot; rd_calls++;
   rd_obs_v = obs_v; rd_obs_ver = obs_ver; rd_obs_slot = obs_slot; rd_obs_snap = obs_snap; g_rd_count = 0;
-  sl_read_data(self, dest, src);
+  /* case split on the slot (proof technique: inside each branch the callee sees a constant slot address) */
+  for (unsigned s = 0; s < XV_S; s++) if (cur_slot == s) sl_read_data(self, dest, &self->_data[s]);
+  if (cur_slot >= XV_S) sl_read_data(self, dest, src);
 }
 static void SL_STORE_DATA(struct seqlock* self, const T* src, storage_t* dest) {
   cur_slot = (unsigned)(dest - self->_data); st_slot = cur_slot; st_calls++; st_seq = self->_seq; g_wr_count = 0;
-  sl_store_data(self, src, dest);
+  for (unsigned s = 0; s < XV_S; s++) if (cur_slot == s) sl_store_data(self, src, &self->_data[s]);
+  if (cur_slot >= XV_S) sl_store_data(self, src, dest);
 }
 /* update's functor: records what it was applied to, returns an arbitrary new value */
 static void XV_FUNCTOR(int func, T* value) {
@@ -155,12 +158,12 @@ static void XV_FUNCTOR(int func, T* value) {
 static void reset_monitors(void) {
   n_seq_loads = n_data_loads = n_data_stores = n_seq_stores = n_cas = n_cas_ok = g_rd_count = g_wr_count = 0; rd_calls = st_calls = fn_calls = 0;
   acc_oob = acc_misaligned = seq_load_weak = fence_missing = pending_data_loads = lock_mine = guar_bad = rel_weak = cas_weak = wfence_missing = 0;
-  rel_fence_since = 0;
+  rel_fence_since = 0; obs_valid = 0;
 }
 static void havoc_shared(void) {
   *g_sl = nondet_seqlock(); shadow_seq = g_sl->_seq;
   for (unsigned s = 0; s < XV_S; s++) ver[s] = nondet_u64();
-  obs_v = nondet_u64(); obs_ver = nondet_u64(); obs_slot = nondet_uint(); obs_snap = nondet_uchar();
+  obs_v = nondet_u64(); obs_ver = nondet_u64(); obs_slot = (unsigned)((obs_v >> 1) % slots); obs_snap = nondet_uchar(); obs_valid = nondet_bool();
   rd_obs_v = nondet_u64(); rd_obs_ver = nondet_u64(); rd_obs_slot = nondet_uint(); rd_obs_snap = nondet_uchar();
   rd_calls = nondet_uint(); st_calls = nondet_uint(); cur_slot = nondet_uint(); rd_slot = nondet_uint(); st_slot = nondet_uint(); st_seq = nondet_u64();
   n_seq_loads = nondet_uint(); n_data_loads = nondet_uint(); n_data_stores = nondet_uint(); n_seq_stores = nondet_uint(); n_cas = nondet_uint(); n_cas_ok = nondet_uint();
@@ -177,22 +180,33 @@ static void init_inputs(void) {
 }
 
 #ifdef XV_INT
+static void env_write(unsigned s) { g_sl->_data[s] = nondet_storage(); ver[s]++; env_writes++; }
 void xv_env(void) {
   if (!env_on || lock_mine) return;                 /* R3 */
   uint64_t a = g_sl->_seq, b = nondet_u64();
   XV_ASSUME(b >= a && b <= MAXSEQ);                 /* R1 */
-  /* write targets of the odd values 2j+1 in [a, b] are the slots t mod slots for t in [lo, hi] */
-  uint64_t lo = (a >> 1) + 1, hi = (b + 1) >> 1;
+  /* R2: the write targets of the odd values 2j+1 in [a, b] are the slots t mod slots for t = j+1 in [lo, hi] */
+  uint64_t lo = (a >> 1) + 1, hi = (b + 1) >> 1, k = obs_v >> 1;
   if (hi >= lo) {
-    uint64_t span = hi - lo; unsigned lom = (unsigned)(lo % slots);
-    for (unsigned s = 0; s < XV_S; s++) {
-      unsigned d = (s + XV_S - lom) % XV_S;
-      if (span >= XV_S - 1 || d <= span) { g_sl->_data[s] = nondet_storage(); ver[s]++; env_writes++; }   /* R2 */
+    if (!obs_valid || a < obs_v || hi - k >= XV_S) {
+      for (unsigned s = 0; s < XV_S; s++) env_write(s);          /* a superset of what R2 allows (no observation to refer to, or a full round of slots) */
+    } else {
+      /* k < lo <= hi < k + slots: t mod slots == (k mod slots + (t - k)) mod slots  (lemma sl.env.mod_lemma), and k mod slots is obs_slot */
+      for (unsigned e = 1; e < XV_S; e++)
+        if (lo - k <= e && e <= hi - k) env_write((obs_slot + e) % XV_S);
     }
   }
   g_sl->_seq = b; shadow_seq = b;
 }
 #endif
+
+/* the arithmetic fact the environment's formulation of R2 rests on (and update's (idx + 1) % slots) */
+void h_mod_lemma(void) {
+  uint64_t k = nondet_u64(); unsigned e = nondet_uint();
+  XV_ASSUME(k <= MAXSEQ && e < XV_S);
+  XV_OBL("sl.env.mod_lemma", (k + e) % slots == (unsigned)((k % slots) + e) % XV_S);
+  XV_CANARY("mod_lemma.reached");
+}
 
 /* =================== SEQ: the copy loops =================== */
 void h_copy(void) {
